@@ -159,16 +159,24 @@ func worker(results chan<- result, files <-chan string, wg *sync.WaitGroup) {
 		verifhook.At("worker.recv", "file", file)
 		var res result
 		res.file = file
-		f, err := os.Open(file)
+		// Look before opening: only regular files have contents to hash. Directories, and anything
+		// else that is not a regular file (opening a named pipe would block for ever, a device has no
+		// contents of its own), are skipped without holding a file descriptor open for them
+		info, err := os.Stat(file)
 		if err != nil {
 			res.err = err
 			verifhook.At("worker.send", "file", file)
 			results <- res
 			continue
 		}
-		info, _ := f.Stat() //nolint: errcheck // The file is already open here so we can ignore the error
-		// Skip directories
-		if info.IsDir() {
+		if !info.Mode().IsRegular() {
+			continue
+		}
+		f, err := os.Open(file)
+		if err != nil {
+			res.err = err
+			verifhook.At("worker.send", "file", file)
+			results <- res
 			continue
 		}
 		hash := sha256.New()
